@@ -113,6 +113,19 @@ Theorem C03_array_addback_grow_no_leak :
 Proof. exact EffectsProofs.array_addback_grow_post. Qed.
 Print Assumptions C03_array_addback_grow_no_leak.
 
+(* Array::AddBack(const Item&) with growth, BOTH paths of the tag dispatch (1059-1088): nothrow-relocatable items are copied
+   into a stack buffer, the array grows (catch: destroy the stack copy), the buffer is relocated to the end; copy-only items go
+   through RelocateCreate.  Every schedule: success = the array with one more item, exception = exactly the old array, and the
+   stack buffer is raw again. *)
+Theorem C03_array_addback_no_leak :
+  forall c mgr isz d ext s capacity arg tmp,
+    arr_world mgr isz d ext s -> capacity <> O -> ext arg = true -> ext tmp = false -> fst tmp < 0 ->
+    post (array_addback c mgr isz d capacity arg tmp) s
+         (fun d' s' => arr_world mgr isz d' ext s' /\ a_count d' = S (a_count d) /\ a_cap d' = capacity)
+         (fun s' => arr_world mgr isz d ext s').
+Proof. exact EffectsProofs.array_addback_post. Qed.
+Print Assumptions C03_array_addback_no_leak.
+
 (* ~Array: zero live cells of the array, zero blocks *)
 Theorem C03_array_destroy_releases_everything :
   forall mgr isz d ext s,
